@@ -255,6 +255,9 @@ def step (st : St) : List String → St × String
   | ["oct", "ngbs", _, _, _] => (st, "oct ngbs")
   | ["oct", "sphere", _, _, _, _] => (st, "oct sphere")
   | ["oct", "closest", _, _, _] => (st, "oct closest")
+  | "amrd" :: "new" :: _ => (st, "amrd new")
+  | ["amrd", "loc", _, _, _] => (st, "amrd loc")
+  | ["amrd", "ray", _, _, _, _, _, _, _, _] => (st, "amrd ray")
   | _ => (st, "bad-op")
 
 def main : IO Unit := runDriver step ({} : St)
